@@ -303,7 +303,10 @@ def _k_strategy():
 mul_case = st.fixed_dictionaries({"k": _k_strategy(), "t": _k_strategy(),
                                   "pk": st.one_of(st.integers(1, 20), gen.z256(M.N).map(u).filter(lambda v: v != 0)).map(h),
                                   "lam": st.one_of(st.just(1), gen.z256(M.P).map(u).filter(lambda v: v != 0)).map(h),
-                                  "rel": st.sampled_from(["free", "free", "free", "collide"])})
+                                  "rel": st.sampled_from(["free", "free", "free", "collide"]),
+                                  # the base point: finite, or the point at infinity in the (lam^2 : lam^3 : 0) form / the all-zero form the
+                                  # library's own additions produce
+                                  "base": st.sampled_from(["finite", "finite", "finite", "finite", "inf", "inf-zero"])})
 
 
 @P.sub("scalarmul", mul_case, quick=2400, thorough=40000, variants=VAR)
@@ -325,7 +328,11 @@ def scalarmul(case, ctx):
     exp = M.mul(k, M.G)
     ctx.check(got == exp, "point_mul_generator(k=%x): got %s expected %s" % (k, got, exp),
               "mul/generator/k=n-70" if k == M.N - 70 else "mul/generator")
-    pb = pt_in(Pt, lam)
+    if case.get("base", "finite") != "finite":
+        # [k]O = O for every k by every route; [t]O + [s]G = [s]G
+        Pt = None
+        ctx.case(nontrivial=True, classes=["base:" + case["base"]], ident=[case, "inf"])
+    pb = pt_in(Pt, lam, zero_form=case.get("base") == "inf-zero")
     r = Buf(96, fill=0xA5)
     l.sm2_z256_point_mul(r, kz, pb)
     got, ok = pt_get(r)
@@ -335,7 +342,8 @@ def scalarmul(case, ctx):
     l.sm2_z256_point_mul_pre_compute(pb, T)
     for j in (0, 1, 6, 15):
         gj, _ = pt_get(T, 96 * j)
-        ctx.check(gj == M.mul(j + 1, Pt), "mul_pre_compute table[%d] != [%d]P" % (j, j + 1), "mul/table")
+        if Pt is not None:      # (a table built from infinity is only judged through the products computed with it)
+            ctx.check(gj == M.mul(j + 1, Pt), "mul_pre_compute table[%d] != [%d]P" % (j, j + 1), "mul/table")
     r = Buf(96, fill=0xA5)
     l.sm2_z256_point_mul_ex(r, kz, T)
     got, ok = pt_get(r)
